@@ -172,12 +172,16 @@ Definition ir_inst (C : certs) (P : pairs) (RN : list N) (st : ist) (i i' : inst
 Definition alias_assign (C : certs) (P : pairs) (RN : list N) (i i' : inst) : bool :=
   inst_eqb i i' && String.eqb (i_op i) "assign" &&
   match i_args i, i_outs i with
-  | [OVar x], [z] => negb (memN x RN) && negb (memN z RN)
+  | [OVar x], [z] => negb (memN x RN) && negb (memN z RN) && (if dop C (regs P) (OVar x) then certified_out C i else true)
   | _, _ => false
   end.
+(* the terminator: same instruction up to renamed operands *)
+Definition term_ok (C : certs) (P : pairs) (RN : list N) (st : ist) (t t' : inst) : bool :=
+  same_shell t t' && match kinds C P RN st (i_args t) (i_args t') with Some ks => forallb good ks | None => false end.
 Fixpoint ir_insts (C : certs) (P : pairs) (RN : list N) (st : ist) (b b' : list inst) : bool :=
   match b, b' with
   | [], [] => true
+  | [t], [t'] => term_ok C P RN st t t'
   | i :: r, i' :: r' =>
       if alias_assign C P RN i i' then ir_insts C P RN st r r'
       else match ir_inst C P RN st i i' with Some st' => ir_insts C P RN st' r r' | None => false end
